@@ -516,6 +516,181 @@ theorem late_agrees_elsewhere (q : List (String × QV)) (md : List (Nat × Nat))
     (addParamsLate q md).map (·.seen) = some p.seen :=
   late_agrees h hr
 
+/-! ### the converse of `addp` (round 8 final): for EVERY query, not only the ones the correspondence run draws -/
+
+/-- **which queries `AddParamsFromQuery` accepts.** For every query: the model accepts iff the pin options decode
+    (`fromQuery`), every add bool that is present decodes, layout and format decode, `cid-version` decodes, and version 0 is
+    not asked for by name together with a hash function other than sha2-256.  Chunker and hash words are NOT looked at. -/
+theorem add_accept_iff (q : List (String × QV)) (md : List (Nat × Nat)) :
+    (addParams q md).isSome = true ↔
+      (fromQuery q md).isSome = true ∧ (∀ k ∈ addBoolKeys, (boolParam (getq q k) false).isSome = true) ∧
+      (wordParam (getq q "layout")).isSome = true ∧ (wordParam (getq q "format")).isSome = true ∧
+      (intParam (getq q "cid-version") 0).isSome = true ∧ v0OtherHash q = false := by
+  rw [addParams_isSome]
+  simp only [addParseOk, List.all_eq_true, Bool.and_eq_true, Bool.not_eq_true', and_assoc]
+
+/-- the handler hands nothing to the adder exactly when `url.ParseQuery` or `AddParamsFromQuery` refuses the query -/
+theorem add_refused_iff (q : List (String × QV)) (md : List (Nat × Nat)) :
+    seenOf q md = none ↔ hasGarbled q = true ∨ (addParams q md).isSome = false := by
+  unfold seenOf
+  cases hg : hasGarbled q <;> cases hp : addParams q md <;> simp
+
+/-- **`parseClauses` holds of `seenOf`, for every query** (until now validated by the `addp` correspondence only): a
+    well-formed query is turned into `AddParams` carrying exactly its add options; one with an undecodable pin option, add
+    bool, layout, format or cid-version, with a malformed escape anywhere, or with version 0 named next to another hash
+    function is refused; an undecodable chunker / hash word is left to the adder (K24's subject, no clause). -/
+theorem add_parse_clauses_hold (q : List (String × QV)) (md : List (Nat × Nat)) :
+    (parseClauses q md (seenOf q md)).all (·.2) = true :=
+  parseClauses_seenOf q md
+
+/-- the Prop-level reading: with chunker and hash words that decode, "well-formed" and "accepted" coincide -/
+theorem add_wellformed_iff_accepted (q : List (String × QV)) (md : List (Nat × Nat))
+    (hc : (lateWord (getq q "chunker") "").isSome = true) (hh : (lateWord (getq q "hash") "").isSome = true) :
+    addQueryOk q md = true ↔ ∃ p, hasGarbled q = false ∧ addParams q md = some p ∧ seenOf q md = some p.seen ∧
+      seenExact q p.seen = true := by
+  rw [addQueryOk_eq q md hc hh]
+  constructor
+  · intro h
+    obtain ⟨s, hs⟩ := Option.isSome_iff_exists.mp h
+    obtain ⟨p, hp, rfl⟩ := seenOf_some hs
+    refine ⟨p, ?_, hp, hs, seenExact_of_addParams hp⟩
+    cases hg : hasGarbled q with
+    | false => rfl
+    | true => simp [seenOf, hg] at hs
+  · rintro ⟨p, _, _, hs, _⟩; simp [hs]
+
+def qAddpOk : List (String × QV) :=
+  [("hash", .valid (.str "sha3-512")), ("raw-leaves", .valid (.bool false)), ("layout", .valid (.str "trickle")), ("name", .empty)]
+def qAddpBad : List (String × QV) := [("shard", .invalid), ("chunker", .valid (.str "size-10"))]
+example : (addParams qAddpOk []).isSome = true ∧ addQueryOk qAddpOk [] = true := by decide
+example : seenOf qAddpBad [] = none ∧ addQueryOk qAddpBad [] = false ∧
+    parseClauses qAddpBad [] (seenOf qAddpBad []) = [("fail_closed", true)] := by decide
+example : v0OtherHash [("hash", .invalid), ("cid-version", .valid (.int 0))] = true := by decide
+
+/-- **the refuted alternative** (a lenient `parseBoolParam` that falls back to the default on an undecodable value):
+    whatever `AddParams` it hands on for `?shard=<not a bool>`, the `fail_closed` clause fails -/
+theorem lenient_bool_refuted (s : AddSeen) : (parseClauses qAddpBad [] (some s)).all (·.2) = false := by
+  have h : parseClauses qAddpBad [] (some s) = [("fail_closed", false)] := by
+    have h1 : addQueryOk qAddpBad [] = false := by decide
+    have h2 : ((lateWord (getq qAddpBad "chunker") "").isNone || (lateWord (getq qAddpBad "hash") "").isNone) = false := by decide
+    simp [parseClauses, h1, h2]
+  rw [h]; rfl
+
+/-- **all add clauses together, for every add request** (gate, answered, single document, fail-closed, faithful, options
+    exact): the model's answer satisfies `addHolds` — whatever the credentials, body, query, metadata and cluster answer —
+    under ONE hypothesis, which is the recorded finding K24 itself: an accepted request is not one the adder rejects late
+    (broken multipart body, unknown chunker / hash word, `format=car` or `nocopy=true` with an inline plain file, a CID version
+    other than 0 / 1), where the answer is 200 + trailer (or 500) instead of 4xx (`add_K24_witness` shows the clause really
+    fails there). -/
+theorem add_model_holds (r : AddReq)
+    (hK : ∀ p, addAuthorized r = true → r.mp ≠ .none → hasGarbled r.query = false → addParams r.query r.md = some p →
+      lateFailure r p = false) :
+    addHolds r (addHandle r) = true := by
+  by_cases ha' : addAuthorized r = false
+  · have h401 : addHandle0 r = { status := 401, body := .docs 1, trailer := false, root := none, ops := [] } := by
+      unfold addHandle0
+      have : (r.creds && r.auth != .right) = true := by
+        unfold addAuthorized at ha'
+        cases hc : r.creds <;> cases hau : r.auth <;> simp_all
+      simp [this]
+    simp [addHolds, addClauses, ha', addHandle, h401]
+  · have ha : addAuthorized r = true := by simpa using ha'
+    by_cases hrefuse : r.mp = .none ∨ hasGarbled r.query = true ∨ addParams r.query r.md = none
+    · obtain ⟨hs, hb, ho⟩ := add_parse_refused r ha hrefuse
+      have hmal : addMalformed r = true := by
+        rcases hrefuse with h | h | h
+        · simp [addMalformed, h]
+        · simp [addMalformed, h]
+        · exact addMalformed_of_refused r h
+      simp [addHolds, addClauses, ha, hmal, hs, hb, ho, is4xx]
+    · simp only [not_or] at hrefuse
+      obtain ⟨hmn, hg, hpn⟩ := hrefuse
+      have hg' : hasGarbled r.query = false := by simpa using hg
+      obtain ⟨p, hp⟩ := Option.ne_none_iff_exists'.mp hpn
+      have hl := hK p ha hmn hg' hp
+      have hm : r.mp = .ok := by
+        have : (r.mp == .junk) = false := by
+          simp only [lateFailure, Bool.or_eq_false_iff] at hl; exact hl.1.1.1.1.1
+        cases hx : r.mp <;> simp_all
+      have hmal := addMalformed_of_accepted r p hm hg' hp hl
+      have hna : (r.creds && r.auth != .right) = false := by
+        unfold addAuthorized at ha
+        cases hc : r.creds <;> cases hau : r.auth <;> simp_all
+      obtain ⟨_, _, hstream⟩ := addParams_fields hp
+      by_cases hr : r.rpc = .ok
+      · obtain ⟨w, hw⟩ : ∃ w, carried r.query r.md = some w := by
+          cases hcc : carried r.query r.md with
+          | none => simp [addMalformed, hcc] at hmal
+          | some w => exact ⟨w, rfl⟩
+        have hf := add_faithful r ha hm p hg' hp hl hr w hw
+        have hle : leafExact r.query (addHandle r).leaf = true := leafExact_addHandle0 r p hg' hp
+        have hst : (addHandle r).status = 200 ∧ (addHandle r).body = .docs 1 ∧ (addHandle r).ops ≠ [] := by
+          show (addHandle0 r).status = 200 ∧ (addHandle0 r).body = .docs 1 ∧ (addHandle0 r).ops ≠ []
+          unfold addHandle0
+          simp [hna, hm, hg', hp, hl, hr]
+        obtain ⟨h1, h2, _⟩ := hst
+        simp only [addHolds, addClauses, ha, hmal, hr, hf, hle, h1, h2]
+        cases addStreams r <;> simp
+      · have hr' : (r.rpc != .ok) = true := by simpa using hr
+        have hst : addHandle0 r = errorAnswer p [⟨"Cluster.BlockAllocate", .path "" (addOpts p)⟩] := by
+          unfold addHandle0
+          simp [hna, hm, hg', hp, hl, hr']
+        have hps : p.stream = addStreams r := by
+          unfold addStreams
+          generalize getq r.query "stream-channels" = v at hstream
+          cases v with
+          | valid x =>
+            cases x with
+            | bool b => simp only [boolParam, Option.some.injEq] at hstream; subst hstream; generalize p.stream = s; cases s <;> decide
+            | _ => simp [boolParam] at hstream
+          | empty => simp only [boolParam, Option.some.injEq] at hstream; rw [← hstream]; decide
+          | _ => simp [boolParam] at hstream
+        have hrn : (r.rpc == .ok) = false := by simpa using hr
+        cases hs : addStreams r <;>
+          simp [addHolds, addClauses, ha, hmal, hrn, hr, addHandle, hst, errorAnswer, hps, hs]
+
+/-- the hypothesis of `add_model_holds` is met by every request whose query the adder accepts; e.g. these -/
+def addReqOk : AddReq := { creds := true, auth := .right, mp := .ok, query := qAddpOk, md := [(1, 2)], rpc := .ok }
+example : ∀ p, addParams addReqOk.query addReqOk.md = some p → lateFailure addReqOk p = false := by
+  intro p hp
+  have : addParams addReqOk.query addReqOk.md = some ((addParams addReqOk.query addReqOk.md).get (by decide)) := by simp
+  rw [this] at hp; cases hp; decide
+example : addHolds addReqOk (addHandle addReqOk) = true ∧ (addHandle addReqOk).ops.length = 3 := by decide
+example : addHolds { addReqOk with rpc := .err, query := [("stream-channels", .valid (.bool false))] }
+    (addHandle { addReqOk with rpc := .err, query := [("stream-channels", .valid (.bool false))] }) = true := by decide
+example : addHolds { addReqOk with query := qAddpBad } (addHandle { addReqOk with query := qAddpBad }) = true := by decide
+
+/-! ### credentials-map corner cases (round 8 final): an empty configured password, an empty user name -/
+
+/-- **an empty configured password is not a wildcard**: with `user → ""` configured, only the empty password gets that
+    user through, and a request without a (well-formed) header gets nobody through -/
+theorem empty_password_not_wildcard (u p : String) (hp : p ≠ "") :
+    authOk Gen.authLogic [(u, "")] (.basic u p) = false ∧ authOk Gen.authLogic [(u, "")] (.basic u "") = true ∧
+    authOk Gen.authLogic [(u, "")] .none = false ∧ authOk Gen.authLogic [(u, "")] .malformed = false := by
+  refine ⟨?_, ?_, rfl, rfl⟩
+  · simp [authOk, Gen.authLogic, AuthCond.eval, Ne.symm hp]
+  · simp [authOk, Gen.authLogic, AuthCond.eval]
+
+/-- an empty configured user name is a name like any other: only the empty user with that password gets through -/
+theorem empty_user_is_a_name (u p pw : String) :
+    authOk Gen.authLogic [("", pw)] (.basic u p) = (u == "" && p == pw) := by
+  simp only [authOk, Gen.authLogic, AuthCond.eval, List.any_cons, List.any_nil, Bool.or_false]
+  rw [Bool.eq_iff_iff]
+  simp only [Bool.and_eq_true, beq_iff_eq]
+  constructor <;> rintro ⟨a, b⟩ <;> exact ⟨a.symm, b.symm⟩
+
+/-- the refuted alternative: a handler that does not test `ok` of `r.BasicAuth()` treats "no header" as the pair
+    ("", "") - with an empty user and password configured a request without any header would get through; and one that
+    only compares when the configured password is non-empty makes the empty password a wildcard -/
+theorem ok_unchecked_refuted :
+    authOk { Gen.authLogic with okChecked := false } [("", "")] .none = true ∧
+    authOk Gen.authLogic [("", "")] .none = false := by decide
+theorem user_only_refuted :
+    authOk { Gen.authLogic with cond := .atom .userEq } [("u0", "")] (.basic "u0" "whatever") = true ∧
+    authOk Gen.authLogic [("u0", "")] (.basic "u0" "whatever") = false := by decide
+
+example : authOk Gen.authLogic [("u0", "")] (.basic "u0" "") = true := by decide
+
 /-! ### the full statement (server side) now holds of the model -/
 
 /-- the property of the server request path with no deviation excluded -/
